@@ -111,6 +111,7 @@ func checkAll(keys []int) {
 func main() {
 	ev.GuardFor("C15")
 	r := ev.Start("C15")
+	defer r.FinishOnPanic()
 	e = &enum.E{R: r}
 	ternLen := ev.Pick(r, 8, 10)
 	binLen := ev.Pick(r, 15, 20)
